@@ -156,7 +156,7 @@ def print_assumptions(rundir, modules, qualified_names):
             res[qn] = 'closed'
         else:
             axs = re.findall(r'^([A-Za-z_][\w\.\']*)\s*:', b, flags=re.M)
-            res[qn] = axs
+            res[qn] = [a for a in axs if a != 'Axioms']     # the block header "Axioms:" is not an axiom
     return res, out
 
 
